@@ -15,7 +15,7 @@ TRUSTED_BASE = [
 PROPS = {
     "C07": {
         "translators": ["t1"],
-        "count": {"quick": 150, "thorough": 1500},
+        "count": {"quick": 450, "thorough": 2400},
         "rule": "exhaustive over the 15 (ErrorLevel, StrictnessLevel) pairs through the public ErrorLevel::fails; generated "
                 "structures written by the crate's own raw writers, one diagnostic trigger injected per text (see input_distribution), "
                 "read at the three levels in both formats: gate law evaluated by the extracted Coq gate on the observed diagnostic "
@@ -174,7 +174,7 @@ PROPS = {
                         
                         "a residue key that comes back later in the chain always carries the same residue name: a residue holding conformers of several names together with blank alternate locations is not generated (which blank conformer is shared out is not fixed by the property; the specification shares out a single one)",
                         "a truncated atom line keeps at least 7 characters (a bare 'ATOM  ' is not a record for the reader and is skipped without a diagnostic)",
-                        "the whole-file refinement theorem read_pdb (render recs) = denote recs is not proved (proved: field and line read-back, the grouping and the simulation of the specification walk on runs of coordinate and TER records; proved since: MODEL / ENDMDL boundaries and the MODRES pass; not proved: metadata records, the other passes after the loop, the lexing of whole lines of every record type); the two are compared on every generated text"],
+                        "the whole-file refinement theorem read_pdb (render recs) = denote recs is not proved (proved: field and line read-back, the grouping and the simulation of the specification walk on runs of coordinate and TER records; proved since: MODEL / ENDMDL boundaries, HEADER / REMARK / CRYST1 records and the MODRES pass; not proved: the matrix records, the other passes after the loop, the lexing of whole lines of every record type); the two are compared on every generated text"],
     },
     "C02": {
         "translators": ["t2a", "t2b", "t2c"],
